@@ -13,6 +13,6 @@ for id in $IDS; do
   clean=$(grep -c "demo on clean tree: PASS" $OUT/$id.log)
   suite=$(grep -c "suite with change: PASS" $OUT/$id.log)
   demo=$(grep -c "demo with change: FAIL" $OUT/$id.log)
-  fired=$(grep -c "violated" $OUT/$id.log)
+  fired=$(grep -c "VIOLATION\|violated" $OUT/$id.log)
   echo "$id applies=$((1-applies)) clean_demo_pass=$clean suite_pass=$suite demo_fails=$demo check_fires=$fired"
 done
